@@ -79,10 +79,22 @@ def deco_lines(existing, variant, place, name):
     return lines
 
 
-def st_func(k, conf, variant, in_class, ann='int', is_async=False, decos=(), name=None, bad_hint=False, static=False):
+def st_func(k, conf, variant, in_class, ann='int', is_async=False, decos=(), name=None, bad_hint=False, static=False, where='first'):
+    """where: which part of the signature carries the (only) hint -- first positional parameter (and the return),
+    a positional-only / keyword-only / *args / **kwargs parameter alone, or the return alone."""
     name = name or f'f{k()}'
     a = 'a: 3' if bad_hint else (f'a: {ann}' if ann else 'a')
     ret = f' -> {ann}' if ann and not bad_hint else ''
+    if where == 'posonly':
+        a, ret = f'a: {ann}, /, b=0', ''
+    elif where == 'kwonly':
+        a, ret = f'a=0, *, b: {ann} = 0', ''
+    elif where == 'vararg':
+        a, ret = f'a=0, *rest: {ann}', ''
+    elif where == 'kwarg':
+        a, ret = f'a=0, **rest: {ann}', ''
+    elif where == 'return':
+        a, ret = 'a=0', f' -> {ann}'
     decorated = bool(ann) and not in_class
     dl = deco_lines(list(decos), variant if decorated else 'orig', conf['place_func'], 'RF')
     if static:
@@ -167,7 +179,8 @@ def module_source(mod, conf, variant):
 def statement_alphabet():
     f = lambda **kw: ('func', kw)
     return {
-        'F': f(), 'Fu': f(ann=''), 'Fbad': f(bad_hint=True), 'AF': f(is_async=True), 'AFd': f(is_async=True, decos=('@d',)), 'Fd': f(decos=('@d',)), 'Fdd': f(decos=('@d', '@d(1)')),
+        'F': f(), 'Fu': f(ann=''), 'Fbad': f(bad_hint=True), 'Fpos': f(where='posonly'), 'Fkwo': f(where='kwonly'), 'Fvar': f(where='vararg'), 'Fkwa': f(where='kwarg'), 'Fret': f(where='return'),
+        'AF': f(is_async=True), 'AFd': f(is_async=True, decos=('@d',)), 'Fd': f(decos=('@d',)), 'Fdd': f(decos=('@d', '@d(1)')),
         'C': ('class', (), [f(), ('ann', 'name', True, False)], None), 'Cd': ('class', ('@d', '@d(1)'), [f(static=True), f(ann='')], None),
         'Cn': ('class', (), [('class', (), [f()], None), f()], None), 'Cbad': ('class', (), [f(bad_hint=True), f()], None),
         'Aok': ('ann', 'name', True, True), 'Abad': ('ann', 'name', True, False), 'Anov': ('ann', 'name', False, True),
@@ -192,7 +205,7 @@ def modules(tier):
         mods.append((f'|{a},{b}', (False, False, [A[a], A[b]])))
     # definitions followed by conforming / violating calls (checks really present; siblings of unhandled definitions still checked)
     fkw = lambda name, **kw: ('func', dict(name=name, **kw))
-    for defs in (['F'], ['AF'], ['Fd'], ['Fdd'], ['Fbad', 'F'], ['F', 'Fbad']):
+    for defs in (['F'], ['AF'], ['Fd'], ['Fdd'], ['Fbad', 'F'], ['F', 'Fbad'], ['Fpos']):
         stm = []
         fn = None
         for i, dn in enumerate(defs):
